@@ -252,7 +252,13 @@ class UnitRunner:
             for exc in st.get("raises", []):
                 flag = z3.Bool(ip_.path.fresh_name("raises_" + exc))
                 if ip_.path.branch(flag):
-                    ip_.raise_exc(exc)
+                    if exc in ip_.exc_classes:
+                        ip_.raise_exc(exc)
+                    try:
+                        ecls = ip_.module_global(f.module, exc)  # an exception class of the repository, by name
+                    except KeyError:
+                        ecls = ip_.module_global(ip_.spec_module, exc)
+                    raise PyRaise(ip_.call(ecls, [], {}))
             ret = st.get("returns")
             if isinstance(ret, str) and ret not in ("int", "bool", "bytes", "str", "real", "any"):
                 env["result"] = ip_.eval_spec_expr(ret, env, total=True)
@@ -266,9 +272,67 @@ class UnitRunner:
         return hook
 
     # -- main --------------------------------------------------------------------------------------------------------
+    def extend_call_with_all_params(self, ip, c):
+        """all_params=True: every optional parameter of the function under contract that the call expression does not
+        mention is passed a fresh symbolic value (typed after its default), so the contract must hold for ALL of them -
+        e.g. a later-added `check_signature=True` switch cannot silently weaken an authenticated decoder."""
+        import ast as _ast
+        rel, qual = c["fn"].split("::")
+        mod = ip.src.load_path(rel)
+        node = None
+        parts = qual.split(".")
+        if len(parts) == 1:
+            node = mod.funcs.get(parts[0])
+        elif parts[0] in mod.classes:
+            node = mod.classes[parts[0]].methods.get(parts[1]) if len(parts) == 2 else None
+        if node is None:
+            return c["call"], {}
+        tree = _ast.parse(c["call"].strip(), mode="eval")
+        target = None
+        for n in _ast.walk(tree):
+            if isinstance(n, _ast.Call) and ((isinstance(n.func, _ast.Attribute) and n.func.attr == node.name)
+                                             or (isinstance(n.func, _ast.Name) and n.func.id == node.name)):
+                target = n
+                break
+        if target is None:
+            return c["call"], {}
+        params = [a.arg for a in node.args.args]
+        is_method = isinstance(target.func, _ast.Attribute)
+        if is_method and params and params[0] in ("self", "cls"):
+            params = params[1:]
+        defaults = node.args.defaults
+        with_default = dict(zip([a.arg for a in node.args.args][len(node.args.args) - len(defaults):], defaults))
+        for a, d in zip(node.args.kwonlyargs, node.args.kw_defaults):
+            if d is not None:
+                with_default[a.arg] = d
+                params.append(a.arg)
+        given = set(params[:len(target.args)]) | {k.arg for k in target.keywords if k.arg}
+        extra = {}
+        for p in params:
+            if p in given or p not in with_default:
+                continue
+            d = with_default[p]
+            if isinstance(d, _ast.Constant) and isinstance(d.value, bool):
+                decl = "bool"
+            elif isinstance(d, _ast.Constant) and isinstance(d.value, int):
+                decl = "int"
+            else:
+                continue
+            var = f"xp_{p}"
+            extra[var] = decl
+            target.keywords.append(_ast.keyword(arg=p, value=_ast.Name(id=var, ctx=_ast.Load())))
+        return _ast.unparse(tree), extra
+
     def run(self):
         c = self.c
         ip = make_interp(self.prop, self.overrides)
+        if c.get("all_params"):
+            new_call, extra = self.extend_call_with_all_params(ip, c)
+            if extra:
+                c = dict(c)
+                c["call"] = new_call
+                c["vars"] = {**c["vars"], **extra}
+                self.c = c
         ip.ref_fields = dict(c.get("refs") or {})
         self.install_hooks(ip)
         for lk, spec in c["loops"].items():
